@@ -180,6 +180,20 @@ def build(case):
         kw["charge"] = float(Fraction(case["charge"]))
     if case.get("spinpol") is not None:
         kw["spinpol"] = float(Fraction(case["spinpol"]))
+    if case.get("mo"):
+        # charge and spin polarisation derived from orbital occupations (they cannot be assigned then)
+        from iodata.orbitals import MolecularOrbitals
+
+        kind, oa, ob = case["mo"]
+        oa = [float(Fraction(x)) for x in oa]
+        ob = [float(Fraction(x)) for x in ob]
+        kw.pop("charge", None)
+        kw.pop("spinpol", None)
+        if kind == "unrestricted":
+            kw["mo"] = MolecularOrbitals("unrestricted", len(oa), len(ob), occs=np.array(oa + ob))
+        else:
+            kw["mo"] = MolecularOrbitals("restricted", len(oa), len(oa), occs=np.array(oa) + np.array(ob),
+                                         occs_aminusb=np.array(oa) - np.array(ob))
     return IOData(**kw)
 
 
@@ -242,6 +256,22 @@ def _rand_charge(rng):
     return Fraction(rng.randint(-5 * 2**12, 5 * 2**12), 2**12)
 
 
+def _rand_mo(rng):
+    """(kind, alpha occupations, beta occupations) as strings of dyadic rationals; same length for restricted."""
+    norb = rng.randint(1, 9)
+    na = rng.randint(0, norb)
+    nb = rng.randint(0, norb)
+    oa = [Fraction(1)] * na + [Fraction(0)] * (norb - na)
+    ob = [Fraction(1)] * nb + [Fraction(0)] * (norb - nb)
+    if rng.random() < 0.4:  # fractional occupations, incl. exact halves of the total difference
+        for o in (oa, ob):
+            o[rng.randrange(norb)] = Fraction(rng.randint(0, 8), 8)
+    kind = rng.choice(["restricted", "unrestricted"])
+    if kind == "unrestricted" and rng.random() < 0.5:
+        ob = ob[: rng.randint(1, norb)]
+    return [kind, [str(x) for x in oa], [str(x) for x in ob]]
+
+
 def _rand_case(rng, natom=None):
     n = natom or rng.choice([1, 1, 2, 3, 5, 8, 13, 30])
     atoms = []
@@ -264,6 +294,8 @@ def _rand_case(rng, natom=None):
     case["spinpol"] = _rand_charge(rng)
     for k in ("charge", "spinpol"):
         case[k] = None if case[k] is None else str(case[k])
+    if rng.random() < 0.2:
+        case["mo"] = _rand_mo(rng)
     r = rng.random()
     extra = []
     if r < 0.5:
@@ -298,6 +330,11 @@ def _cases(ctx):
             for which in ("charge", "spinpol"):
                 c = {"prog": prog, "atoms": [(8, 0, 0, 0)], which: ch}
                 cases.append((c, "rounding-" + which))
+    for prog in PROGRAMS:
+        for mo in (["unrestricted", ["1"] * 9, ["1"] * 7], ["restricted", ["1", "1", "1"], ["1", "0", "0"]],
+                   ["unrestricted", ["1", "1/2"], ["1"]], ["restricted", ["1", "1/2"], ["1", "0"]],
+                   ["unrestricted", ["1", "1"], ["1", "1", "1", "1"]], ["restricted", ["1"], ["1"]]):
+            cases.append(({"prog": prog, "atoms": [(8, 0, 0, 0), (8, 1207000, 0, 0)], "mo": mo}, "orbitals-derived"))
     for n in (100, 200):
         cases.append((_rand_case(rng, n), f"{n}-atoms"))
     if ctx.thorough:
@@ -345,6 +382,12 @@ def _expected_fields(case, data):
         "charge": str(round(Fraction(float(data.charge)))) if data.charge is not None else "0",
         "spinmult": str(abs(round(Fraction(float(data.spinpol)))) + 1) if data.spinpol is not None else "1",
     }
+    if case.get("mo"):
+        # derived from the orbital occupations of the case itself (dyadic rationals: exact), not from the object's properties
+        na = sum(Fraction(x) for x in case["mo"][1])
+        nb = sum(Fraction(x) for x in case["mo"][2])
+        exp["spinmult"] = str(round(abs(na - nb)) + 1)
+        exp["charge"] = str(round(sum(a[0] for a in case["atoms"]) - (na + nb)))
     for k, v in (case.get("kwargs") or {}).items():
         if k in exp:
             exp[k] = str(v)
@@ -420,6 +463,8 @@ def _search_case(rng):
     for k in ("charge", "spinpol"):
         c = _rand_charge(rng)
         case[k] = None if c is None else str(c)
+    if rng.random() < 0.25:
+        case["mo"] = _rand_mo(rng)
     if rng.random() < 0.4:
         case["kwargs"] = {rng.choice(["lot", "obasis_name", "run_type", "charge", "spinmult", "title"]): rng.choice(["KW", 7, "zz"])}
     if rng.random() < 0.5:
